@@ -9,7 +9,7 @@ import numpy as np
 from .. import core, gens
 from ..core import Suite, cZ, cnat, cQ, cstr, clist, cpair, copt, cbool
 
-PEPV = ["1/1048576", "1/8192", "1/256", "1/16", "1/2"]
+PEPV = ["1/1048576", "1/8192", "1/64", "1/16", "1/2"]      # the third value IS the cutoff 1/64: a PSM at the cutoff is used (<=)
 
 
 def fq(x):
